@@ -168,6 +168,8 @@ async fn run_history_cfg(tls_connections: Arc<std::sync::atomic::AtomicUsize>, f
 #[derive(Clone, Copy, Debug, PartialEq, Eq, Hash)]
 enum VOp {
     Start,
+    /// a request whose destination the client rejects locally (300-byte domain): it may have dialled a session
+    StartBad,
     Finish(usize),
     /// the server drops the j-th connection the client dialled
     Die(usize),
@@ -176,94 +178,133 @@ enum VOp {
 }
 
 fn vstr(h: &[VOp]) -> String {
-    h.iter().map(|o| match o { VOp::Start => "start".to_string(), VOp::Finish(i) => format!("finish({i})"), VOp::Die(j) => format!("die({j})"), VOp::Wait(0) => "wait(I/2)".to_string(), VOp::Wait(_) => "wait(>T+I)".to_string() }).collect::<Vec<_>>().join(",")
+    h.iter().map(|o| match o { VOp::Start => "start".to_string(), VOp::StartBad => "start(destination rejected locally)".to_string(), VOp::Finish(i) => format!("finish({i})"), VOp::Die(j) => format!("die({j})"), VOp::Wait(0) => "wait(I/2)".to_string(), VOp::Wait(_) => "wait(>T+I)".to_string() }).collect::<Vec<_>>().join(",")
 }
 
-/// One history on the real Client over the in-memory dialer seam, virtual time; same model and keys as the LX family.
+/// One history on the real Client over the in-memory dialer seam, virtual time; same rule and keys as the LX family,
+/// but judged on the server's view: a "healthy session" is a connection the server still has open.
 fn vhistory(interval_ms: u64, timeout_ms: u64, min_idle: usize, h: Vec<VOp>) -> Vec<(String, String)> {
     use crate::cworld::*;
     use crate::ctl::{ExecCfg, Outcome, run_exec, scenario, settle};
     let slot: Arc<Mutex<Vec<(String, String)>>> = Arc::new(Mutex::new(vec![]));
     let slot2 = slot.clone();
-    let hs = vstr(&h);
     let sc = scenario(move || {
         let h = h.clone();
         let slot2 = slot2.clone();
-        let hs = hs.clone();
         async move {
             let mut viols: Vec<(String, String)> = vec![];
             let w = CWorld::start(crate::sess::padding(crate::sess::STOP0), pool(interval_ms, timeout_ms, min_idle), Answer::Ok);
             let mut active: Vec<(Arc<Stream>, Arc<Session>)> = vec![];
-            let mut sessions: Vec<Arc<Session>> = vec![];
+            // connection index serving each active request (parallel to `active`)
+            let mut active_conn: Vec<usize> = vec![];
+            // model, per connection in dial order: still in the pool (inserted at creation, removed when handed out again)?
             let mut in_pool: Vec<bool> = vec![];
+            let mut killed: Vec<bool> = vec![];
             let mut peak = 0usize;
             let mut nreq = 0usize;
             for (step, op) in h.iter().enumerate() {
                 let upto = || vstr(&h[..=step]);
                 match op {
-                    VOp::Start => {
+                    VOp::Start | VOp::StartBad => {
                         nreq += 1;
-                        let before = w.dials();
-                        let healthy_pooled: Vec<usize> = sessions.iter().enumerate().filter(|(i, s)| !s.is_closed() && in_pool[*i]).map(|(i, _)| i).collect();
-                        let healthy_existing = sessions.iter().any(|s| !s.is_closed());
+                        let bad = *op == VOp::StartBad;
+                        let logs0 = w.logs();
+                        let alive = |i: usize, logs: &Vec<ConnLog>, killed: &Vec<bool>| !logs[i].eof && !killed[i];
+                        let healthy: Vec<usize> = (0..logs0.len()).filter(|i| alive(*i, &logs0, &killed)).collect();
+                        let healthy_pooled: Vec<usize> = healthy.iter().copied().filter(|i| in_pool[*i]).collect();
                         let none_active = active.is_empty();
-                        let r = crate::sess::within(w.client.create_proxy_stream(("example.com".to_string(), 1000 + nreq as u16))).await;
-                        let (st, sess) = match r {
-                            Some(Ok(x)) => x,
+                        // the request counts as active while it is being served, whatever its outcome
+                        peak = peak.max(active.len() + 1);
+                        // a request whose destination the client rejects locally: a domain name of 300 bytes
+                        let host = if bad { "x".repeat(300) } else { "example.com".to_string() };
+                        let r = crate::sess::within(w.client.create_proxy_stream((host, 1000 + nreq as u16))).await;
+                        settle().await;
+                        let logs1 = w.logs();
+                        let dialled = logs1.len() - logs0.len();
+                        for _ in 0..dialled {
+                            in_pool.push(true);
+                            killed.push(false);
+                        }
+                        // which connection served it: the one that got new frames
+                        let mut serving: Option<usize> = if dialled > 0 { Some(logs1.len() - 1) } else { None };
+                        if dialled == 0 {
+                            let mut served = false;
+                            for i in 0..logs0.len() {
+                                if logs1[i].frames.len() > logs0[i].frames.len() && logs1[i].frames[logs0[i].frames.len()..].iter().any(|f| f.cmd == crate::refmodel::SYN) {
+                                    in_pool[i] = false;
+                                    served = true;
+                                    serving = Some(i);
+                                }
+                            }
+                            // a request that failed before it put anything on the wire still took a session out of
+                            // the pool: the newest healthy pooled one (get_idle_session's rule)
+                            if !served && let Some(i) = healthy_pooled.iter().copied().max() {
+                                in_pool[i] = false;
+                            }
+                        }
+                        match r {
+                            Some(Ok((st, sess))) => {
+                                active.push((st, sess));
+                                active_conn.push(serving.unwrap_or(usize::MAX));
+                                peak = peak.max(active.len());
+                            }
+                            Some(Err(_)) if bad => {}
                             other => {
                                 viols.push(("C13:request-failed".into(), format!("[{}] (virtual time): {:?}", upto(), other.map(|r| r.map(|_| ()).map_err(|e| e.to_string())))));
                                 break;
                             }
-                        };
-                        let dialled = w.dials() - before;
-                        match sessions.iter().position(|s| Arc::ptr_eq(s, &sess)) {
-                            Some(i) => in_pool[i] = false,
-                            None => {
-                                sessions.push(sess.clone());
-                                in_pool.push(true);
-                            }
                         }
-                        active.push((st, sess));
-                        peak = peak.max(active.len());
-                        if none_active && healthy_existing && dialled > 0 {
+                        if none_active && !healthy.is_empty() && dialled > 0 {
                             let key = if healthy_pooled.is_empty() { "C13:redial-while-healthy-session-exists:session-never-returned-to-pool" } else { "C13:redial-while-healthy-session-exists:pooled-session-ignored" };
-                            viols.push((key.into(), format!("[{}] (virtual time, interval {interval_ms} ms, timeout {timeout_ms} ms): request #{nreq} started with no other request active and a healthy session established, yet {dialled} new connection(s) were dialled (healthy sessions still in the pool per model: {:?})", upto(), healthy_pooled)));
+                            viols.push((key.into(), format!("[{}] (virtual time, interval {interval_ms} ms, timeout {timeout_ms} ms): request #{nreq} started with no other request active and a healthy session established (connections {:?} open at the server), yet {dialled} new connection(s) were dialled (healthy sessions still in the pool per model: {:?})", upto(), healthy, healthy_pooled)));
                         }
                     }
                     VOp::Finish(i) => {
                         if *i < active.len() {
                             let (st, sess) = active.remove(*i);
+                            active_conn.remove(*i);
                             drop(st);
                             drop(sess);
                             settle().await;
                         }
                     }
                     VOp::Die(j) => {
+                        if *j < killed.len() {
+                            killed[*j] = true;
+                        }
                         w.kill(*j);
                         settle().await;
                         tokio::time::sleep(Duration::from_millis(3)).await;
-                        // requests on a dead session are over
-                        active.retain(|(_, s)| !s.is_closed());
                     }
                     VOp::Wait(k) => {
                         let d = if *k == 0 { interval_ms / 2 + 7 } else { timeout_ms + interval_ms + 13 };
                         tokio::time::sleep(Duration::from_millis(d)).await;
                         settle().await;
-                        active.retain(|(_, s)| !s.is_closed());
                     }
                 }
-                let open = sessions.iter().filter(|s| !s.is_closed()).count();
-                if open > peak + min_idle {
-                    let unreachable = sessions.iter().enumerate().filter(|(i, s)| !s.is_closed() && !in_pool[*i] && !active.iter().any(|(_, x)| Arc::ptr_eq(x, s))).count();
+                settle().await;
+                // requests on a dead session are over
+                let mut k = 0;
+                while k < active.len() {
+                    if active[k].1.is_closed() {
+                        active.remove(k);
+                        active_conn.remove(k);
+                    } else {
+                        k += 1;
+                    }
+                }
+                let logs = w.logs();
+                let open = (0..logs.len()).filter(|i| !logs[*i].eof && !killed[*i]).count();
+                if open > peak.max(1) + min_idle || (open > peak + min_idle && peak > 0) {
+                    let unreachable = (0..logs.len()).filter(|i| !logs[*i].eof && !killed[*i] && !in_pool[*i] && !active_conn.contains(i)).count();
                     let key = if unreachable > 0 { "C13:session-count-exceeds-bound:sessions-never-returned-to-pool" } else { "C13:session-count-exceeds-bound" };
-                    viols.push((key.into(), format!("[{}] (virtual time): {open} sessions open, peak concurrent requests {peak}, min_idle {min_idle}", upto())));
+                    viols.push((key.into(), format!("[{}] (virtual time): {open} sessions open at the server, peak concurrent requests {peak}, min_idle {min_idle}", upto())));
                 }
                 if !viols.is_empty() {
                     break;
                 }
             }
-            let _ = hs;
-            for s in &sessions {
+            for (_, s) in &active {
                 let _ = s.close().await;
             }
             w.client.stop_session_pool_cleanup().await;
@@ -293,6 +334,9 @@ fn vhistories(depth: usize) -> Vec<Vec<VOp>> {
                 next.push((n, a, di, de));
             };
             push(VOp::Start, active + 1, dials + 1, *deaths);
+            if h.iter().filter(|o| **o == VOp::StartBad).count() < 1 {
+                push(VOp::StartBad, *active, dials + 1, *deaths);
+            }
             for i in 0..*active {
                 push(VOp::Finish(i), active - 1, *dials, *deaths);
             }
@@ -479,5 +523,5 @@ pub fn run(tier: Tier) -> i32 {
             rep.sections.insert("bx".into(), json!({"histories": hs.len(), "short_timeout_histories_with_a_wait": wait_family, "depth": depth, "min_idle_values": if thorough { vec![0, 1, 2] } else { vec![0, 1] }}));
         }
     }
-    rep.finish("BX in virtual time: every history of depth 6 (7) over {start request, finish request i, the server drops connection j, wait I/2, wait > T+I} on the real Client over the in-memory dialer seam (H12) against a scripted TLS server, 3 (5) interval/timeout/min_idle configurations; BX over LX: every history of length <= d over {start request, burst of 2 concurrent requests, finish request i, session j dies} x min_idle in {0,1,2} (+ a short-timeout family: every history over {start, finish, wait longer than the idle timeout} with one wait, idle timeout 1 s) through the real Client and Server over TLS; per request the session identity and the number of new TLS connections, per step the number of open sessions vs peak concurrency + min_idle; non-trivial = distinct history with >= 2 requests")
+    rep.finish("BX in virtual time: every history of depth 6 (7) over {start request, a request rejected locally, finish request i, the server drops connection j, wait I/2, wait > T+I} on the real Client over the in-memory dialer seam (H12) against a scripted TLS server, 3 (5) interval/timeout/min_idle configurations; BX over LX: every history of length <= d over {start request, burst of 2 concurrent requests, finish request i, session j dies} x min_idle in {0,1,2} (+ a short-timeout family: every history over {start, finish, wait longer than the idle timeout} with one wait, idle timeout 1 s) through the real Client and Server over TLS; per request the session identity and the number of new TLS connections, per step the number of open sessions vs peak concurrency + min_idle; non-trivial = distinct history with >= 2 requests")
 }
